@@ -199,3 +199,21 @@ PROPS["C06"] = dict(
     exhaustive_axes="message lengths 0..300; 8 torsion points x aliases x {R, A} x {pure, ph}; all bit positions of sig/pk/33-byte msg",
     assumptions=ASSUME_COMMON + ["cofactored-valid R+T / A+T triples may be accepted or rejected (the property states necessary conditions only)"],
 )
+
+PROPS["C07"] = dict(
+    name="c07", sources=["props/c07.cpp"], engine="rapidcheck + enumerator", libs=["-lrapidcheck"], cflags=["-O2"],
+    builds=[("asan", "native"), ("asan", "noti")],
+    builds_thorough=[("asan", "native"), ("asan", "noti"), ("asan", "portable"), ("asan", "noasm")],
+    level="exploration",
+    rule=("rapidcheck (seed from VERIF_SEED, shrinking) with model-generated operands of KNOWN order. Edwards25519 (16000 cases/build): encodings of prime-order points k*B, prime-order + each of the 7 non-trivial "
+          "torsion points (orders 2L, 4L, 8L), pure torsion, non-canonical aliases of torsion points (y+p, sign bit on x=0), y>=p, small y, random bytes (half not on the curve), sign-flipped points; "
+          "operations is_valid_point (accept exactly canonical encodings of order-L points), add/sub (exact canonical sum; -1 for off-curve; aliases: only 'if accepted then exact'), scalarmult with/without "
+          "clamping and base variants (exact result; -1 for invalid points, identity results and all-zero scalars), from_uniform (output in the prime-order subgroup). Scalars from {random, 0, 1, L-3..L+3, "
+          "k*L+-1, 2^252..2^255 +-3, all-ones, all clamp-bit patterns}. Ristretto255 (9000): valid encodings (also of coset representatives P+T), negative s, s>=p, high bit, small, random; is_valid/add/sub/"
+          "scalarmult/base/from_hash against RFC 9496. Scalar arithmetic (40000): add/sub on reduced inputs incl. L-1, mul/negate/complement/invert/reduce (64-byte inputs incl. multiples of L) on arbitrary "
+          "byte strings, is_canonical, for both APIs, against integers mod L. Hash-to-group (5000): from_string / from_string_ro for edwards25519 (NU/RO) and ristretto255 with SHA-256 and SHA-512, messages 0..600 "
+          "bytes incl. NULL, contexts empty/NULL/1..255 bytes against RFC 9380, every output checked for prime-order membership; contexts of 256..1000 bytes are a separate sub-property (known finding). A deterministic "
+          "sweep runs every torsion point, every alias and P+T for each T through is_valid_point, scalarmult, scalarmult_noclamp, add and sub. Non-trivial = structured operand; distinct = (build, op, operand bytes)."),
+    exhaustive_axes="8 torsion points x aliases and prime+T for each T through all point predicates",
+    assumptions=ASSUME_COMMON + ["add/sub with non-canonical aliases: acceptance is unspecified, only the value of an accepted result is asserted"],
+)
